@@ -248,3 +248,50 @@ def run(ctx):
         ab = cb.call_blocks(AUTHM + 'do_authentication')
         cc = [bi for o, b, bi, s in construct_sites(prog, 'tako::connection::Connection') if b.path == cb.path]
         ctx.ob('R20.4', 'Connection::init|authenticates first', bool(ab) and bool(cc) and cc[0] not in cb.reach_from([0], avoid=ab), 'Connection::init builds the connection only after do_authentication', cb.loc(cc[0]) if cc else cb.loc())
+        # the wrapper hands its own arguments through: protocol / roles / key given to do_authentication are the values the
+        # caller of Connection::init supplied (the coroutine reads them from its captured state), never constants
+        if ab:
+            t_ = cb.term[ab[0]]
+            for i_, nm_ in enumerate(('protocol', 'my_role', 'peer_role', 'key')):
+                a_ = t_['args'][i_] if i_ < len(t_['args']) else None
+                l_ = op_local(a_) if a_ is not None else None
+                ctx.ob('R20.4', f'Connection::init|passes its {nm_} argument on', a_ is not None and a_[0] != 'k' and l_ is not None and 1 in cb.derived_from(l_, through_mutation=False),
+                       f'argument {i_} ({nm_}) of do_authentication comes from the arguments of Connection::init (a constant here switches the {nm_} check off for every hq client/server connection)', cb.loc(ab[0]))
+
+    # ---- R20.5 key plumbing: which key guards which listener
+    ctx.rule('R20.5', 'key plumbing: the client listener is armed with the client key and the worker listener with the worker key (ServerConfig fields filled from the matching accessor of the access file; bootstrap hands worker_secret_key to the tako worker server and client_secret_key to the client connection handler)')
+    SRVC = 'hyperqueue::server::bootstrap::ServerConfig'
+    n5 = 0
+    for o_, b_, bi_, s_ in construct_sites(prog, SRVC):
+        if is_test_util(o_) or '::tests::' in o_ or '::_::' in o_:
+            continue
+        names = s_['rv'][1][3]
+        for fld, want, other in (('client_secret_key', 'client_key', 'worker_key'), ('worker_secret_key', 'worker_key', 'client_key')):
+            if fld not in names:
+                continue
+            l_ = op_local(s_['rv'][2][names.index(fld)])
+            callees = set()
+            for x_ in (b_.derived_from(l_, through_mutation=False) if l_ is not None else ()):
+                for d_ in b_.defs().get(x_, ()):
+                    if d_[1] == 'call':
+                        callees.add((callee_of(d_[2]) or '').split('::')[-1])
+                    if d_[1] == 'a' and d_[2]['rv'][0] == 'agg' and d_[2]['rv'][1][0] == 'closure':
+                        for cp_ in prog.with_closures(norm(d_[2]['rv'][1][1])):
+                            for bj_, t2_, c2_ in prog.bodies[cp_].calls():
+                                callees.add((c2_ or '').split('::')[-1])
+            if want in callees or other in callees:
+                n5 += 1
+                ctx.ob('R20.5', f'{o_.split("::")[-1]}|ServerConfig.{fld} <- {want}()', want in callees and other not in callees,
+                       f'{fld} is taken from AccessRecord::{want}() (observed accessors {sorted(callees & {"client_key", "worker_key"})})', b_.loc(bi_, s_))
+    ctx.floor('R20.5', n5, 2, 'ServerConfig key fields filled from an access file')
+    BOOT_ = 'hyperqueue::server::bootstrap::'
+    ib_ = [prog.bodies[p_] for p_ in prog.with_closures(BOOT_ + 'initialize_server') if prog.bodies[p_].kind == 'coroutine']
+    ctx.require(ib_, 'R20.5: initialize_server coroutine')
+    ib_ = max(ib_, key=lambda b_: b_.n)
+    ss_ = ib_.call_blocks('tako::internal::server::start::server_start') or ib_.call_blocks(lambda c: c.endswith('::server_start'))
+    ctx.require(ss_, 'R20.5: server_start call in initialize_server')
+    kl_ = op_local(ib_.term[ss_[0]]['args'][1])
+    ksrc = local_field_sources(ib_, kl_, through_mutation=False) if kl_ is not None else set()
+    ctx.ob('R20.5', 'initialize_server|worker server gets worker_secret_key', 'worker_secret_key' in ksrc and 'client_secret_key' not in ksrc,
+           f'the key handed to tako server_start (worker connections) is ServerConfig.worker_secret_key (observed {sorted(ksrc & {"worker_secret_key", "client_secret_key"})})', ib_.loc(ss_[0]))
+
